@@ -157,11 +157,16 @@ class C17(Spec):
         def lit(v):
             return json.dumps(v)
         for i in range(n):
-            target = rng.choice(["kotlin", "nanobind", "c"])
+            target = rng.choice(["kotlin", "nanobind", "c", "nanobind-cb", "nanobind-cb"])
+            cbmode = target == "nanobind-cb"
+            if cbmode:
+                target = "nanobind"
             case = {"file": [], "cli": [], "attr": [], "target": target}
             names = {"kotlin": [(None, "lib_name"), ("kotlin", "lib_name"), ("kotlin", "domain"), ("js", "lib_name")],
                      "nanobind": [(None, "lib_name"), ("nanobind", "lib_name"), ("kotlin", "lib_name")],
                      "c": [(None, "unsafe_references_in_callbacks"), ("kotlin", "unsafe_references_in_callbacks")]}[target]
+            if cbmode:
+                names = [(None, "unsafe_references_in_callbacks"), ("nanobind", "unsafe_references_in_callbacks"), ("kotlin", "unsafe_references_in_callbacks")]
             for src in ("file", "cli", "attr"):
                 for (sc, nm) in names:
                     if rng.random() < 0.45:
@@ -174,7 +179,8 @@ class C17(Spec):
             if target in ("kotlin", "nanobind") and not any(w[0] is None and w[1].replace("-", "_") == "lib_name" for s_ in ("file", "cli", "attr") for w in case[s_]):
                 case["file"].append([None, "lib-name", "baselib"])
             attrs = "".join(f"#[diplomat::config({(w[0] + '.') if w[0] else ''}{w[1]} = {lit(w[2])})]\n" for w in case["attr"])
-            body = "pub fn f(&self, cb: impl Fn(&O) -> i32) -> i32 { 0 }" if target == "c" else "pub fn f(&self) -> i32 { 0 }"
+            body = ("pub fn f(&self, cb: impl Fn(&O) -> i32) -> i32 { 0 }" if target == "c" else
+                    "pub fn f(&self, cb: impl Fn(&mut O) -> i32) -> i32 { 0 }" if cbmode else "pub fn f(&self) -> i32 { 0 }")
             src = attrs + "#[diplomat::bridge]\nmod ffi {\n    #[diplomat::opaque]\n    pub struct O;\n    impl O {\n        " + body + "\n    }\n}\n"
             entry = os.path.join(d, f"lib_{i}.rs")
             open(entry, "w").write(src)
@@ -193,7 +199,7 @@ class C17(Spec):
                 shared = [w[2] for w in ws if w[0] is None and w[1] == name]
                 return scoped[-1] if scoped else (shared[-1] if shared else None)
             what = None
-            if target == "c":
+            if target == "c" or cbmode:
                 want_ok = eff("unsafe_references_in_callbacks") is True
                 got_ok = p.returncode == 0
                 if "panicked" in p.stderr:
@@ -226,8 +232,8 @@ class C17(Spec):
                 ctx.violation("e2e:" + target, {"case": case, "what": what, "lib_rs": src, "config_toml": toml, "cli": cli}, True)
             # model agreement on the effective shared values
             f = clist([cwrite(w) for w in case["file"]]); c = clist([cwrite(w) for w in case["cli"]]); a = clist([cwrite(w) for w in case["attr"]])
-            if target == "c":
-                goals.append(f"match observe {f} {c} {a} \"c\" with Some o => Bool.eqb (match o_unsafe o with Some true => true | _ => false end) {cbool(p.returncode == 0)} | None => false end")
+            if target == "c" or cbmode:
+                goals.append(f"match observe {f} {c} {a} {cstr(target)} with Some o => Bool.eqb (match o_unsafe o with Some true => true | _ => false end) {cbool(p.returncode == 0)} | None => false end")
             elif obs:
                 name = obs[1] if target == "kotlin" else obs
                 goals.append(f"match observe {f} {c} {a} {cstr(target)} with Some o => opt_eqb String.eqb (o_lib o) (Some {cstr(name)}) | None => false end")
